@@ -46,6 +46,49 @@ def curve2_closedness_rules(cx, b, aggs):
               'is_closed = dist(pts[0], last) <= tol evaluated on the final point list (after the optional closing vertex), same tol', where=s, found=ic)
 
 
+def at_length_rules(cx, CP, C, S):
+    """shared with C04 (portions are cut at stations found by at_length): the station at an arc length"""
+    # ---------------------------------------------------------------- at_length
+    b = cx.fn(f'{CP}::at_length')
+    if b:
+        somes = [(s, dd) for s, dd in cx.rets(b) if dd[0] == 'agg' and dd[1].endswith('Option::Some')]
+        nones = [(s, dd) for s, dd in cx.rets(b) if dd[0] == 'agg' and dd[1].endswith('Option::None')]
+        cx.ob('GUARD', f'{C}::at_length:shape', len(somes) == 2 and len(nones) == 1, 'at_length has one None exit and two Some exits (vertex hit / inside an edge)',
+              found=f'{len(somes)} Some, {len(nones)} None')
+        for s, dd in somes:
+            g0 = cx.guarded(b, s.bb, '(lt (param length) 0.0)', False)
+            g1 = cx.guarded(b, s.bb, f'(lt (call *{C}::length (param self)) (param length))', False)
+            cx.ob('GUARD', f'{C}::at_length:range', g0 is not None and g1 is not None,
+                  'a station is produced only under NOT(length < 0) and NOT(length > self.length()), both strict, so l = 0 and l = L are accepted and nothing outside is',
+                  where=s, found='; '.join(cx.show_guards(b, s.bb))[:400])
+        for s, dd in nones:
+            ok, off = cx.all_paths(b, s.bb, lambda has: has('(lt (param length) 0.0)', True) or has(f'(lt (call *{C}::length (param self)) (param length))', True))
+            cx.ob('GUARD', f'{C}::at_length:none-only-outside', ok, 'None is returned only for a length outside [0, L]', where=s, found='; '.join(off) if off else None)
+        search = '(call slice::binary_search_by (self lengths) (closure * (param length)))'
+        for s, dd in somes:
+            inner = dd[2][1]
+            if match(f'(call *{C}::at_vertex (param self) (unwrap {search}))', inner):
+                cx.ob('EXPR', f'{C}::at_length:vertex-hit', True, 'an exact hit Ok(i) returns at_vertex(i)', where=s)
+                continue
+            e = match(f'(call *{S}::new $pt $dir $i $f (param self))', inner)
+            okx = e is not None and match(f'(sub (unwrap_err {search}) 1)', e['i']) is not None
+            cx.ob('EXPR', f'{C}::at_length:index', okx, 'the station index is next_index - 1 where Err(next_index) is the binary-search insertion point (no clamping of the query)',
+                  where=s, found=e['i'] if e else inner)
+            if not okx:
+                continue
+            env = {'i': e['i']}
+            cx.ob('EXPR', f'{C}::at_length:direction', match(f'(call *{C}::dir_of_edge (param self) $i)', e['dir'], env) is not None,
+                  'direction = dir_of_edge(i) for the same i', where=s, found=e['dir'])
+            cx.ob('EXPR', f'{C}::at_length:fraction', match('(div (sub (param length) (index (self lengths) $i)) (sub (index (self lengths) (add 1 $i)) (index (self lengths) $i)))', e['f'], env) is not None,
+                  'fraction = (l - L[i]) / (L[i+1] - L[i]) for the same i', where=s, found=e['f'])
+            cx.ob('EXPR', f'{C}::at_length:point',
+                  match(f'(call OPoint::add (call *{C}::vtx (param self) $i) (call Matrix::mul (call *{C}::dir_of_edge (param self) $i) (sub (param length) (index (self lengths) $i))))', e['pt'], env) is not None,
+                  'point = vtx(i) + dir_of_edge(i) * (l - L[i]) for the same i', where=s, found=e['pt'])
+        for cl in cx.facts.closures_of(b.name):
+            cx.expect('EXPR', f'{C}::at_length:comparator', cx.retval(cl), '(unwrap (call f64::partial_cmp (param 2) (field cap:length (param 1))))',
+                      'the search orders stored lengths against the query (element.partial_cmp(query))', where=cl.file)
+
+
 def run(cx):
     for D in DIMS:
         mod, C, S, It, d = D['mod'], D['C'], D['S'], D['It'], D['d']
@@ -127,45 +170,7 @@ def run(cx):
             if d == '2D':
                 curve2_closedness_rules(cx, b, aggs)
 
-        # ---------------------------------------------------------------- at_length
-        b = cx.fn(f'{CP}::at_length')
-        if b:
-            somes = [(s, dd) for s, dd in cx.rets(b) if dd[0] == 'agg' and dd[1].endswith('Option::Some')]
-            nones = [(s, dd) for s, dd in cx.rets(b) if dd[0] == 'agg' and dd[1].endswith('Option::None')]
-            cx.ob('GUARD', f'{C}::at_length:shape', len(somes) == 2 and len(nones) == 1, 'at_length has one None exit and two Some exits (vertex hit / inside an edge)',
-                  found=f'{len(somes)} Some, {len(nones)} None')
-            for s, dd in somes:
-                g0 = cx.guarded(b, s.bb, '(lt (param length) 0.0)', False)
-                g1 = cx.guarded(b, s.bb, f'(lt (call *{C}::length (param self)) (param length))', False)
-                cx.ob('GUARD', f'{C}::at_length:range', g0 is not None and g1 is not None,
-                      'a station is produced only under NOT(length < 0) and NOT(length > self.length()), both strict, so l = 0 and l = L are accepted and nothing outside is',
-                      where=s, found='; '.join(cx.show_guards(b, s.bb))[:400])
-            for s, dd in nones:
-                ok, off = cx.all_paths(b, s.bb, lambda has: has('(lt (param length) 0.0)', True) or has(f'(lt (call *{C}::length (param self)) (param length))', True))
-                cx.ob('GUARD', f'{C}::at_length:none-only-outside', ok, 'None is returned only for a length outside [0, L]', where=s, found='; '.join(off) if off else None)
-            search = '(call slice::binary_search_by (self lengths) (closure * (param length)))'
-            for s, dd in somes:
-                inner = dd[2][1]
-                if match(f'(call *{C}::at_vertex (param self) (unwrap {search}))', inner):
-                    cx.ob('EXPR', f'{C}::at_length:vertex-hit', True, 'an exact hit Ok(i) returns at_vertex(i)', where=s)
-                    continue
-                e = match(f'(call *{S}::new $pt $dir $i $f (param self))', inner)
-                okx = e is not None and match(f'(sub (unwrap_err {search}) 1)', e['i']) is not None
-                cx.ob('EXPR', f'{C}::at_length:index', okx, 'the station index is next_index - 1 where Err(next_index) is the binary-search insertion point (no clamping of the query)',
-                      where=s, found=e['i'] if e else inner)
-                if not okx:
-                    continue
-                env = {'i': e['i']}
-                cx.ob('EXPR', f'{C}::at_length:direction', match(f'(call *{C}::dir_of_edge (param self) $i)', e['dir'], env) is not None,
-                      'direction = dir_of_edge(i) for the same i', where=s, found=e['dir'])
-                cx.ob('EXPR', f'{C}::at_length:fraction', match('(div (sub (param length) (index (self lengths) $i)) (sub (index (self lengths) (add 1 $i)) (index (self lengths) $i)))', e['f'], env) is not None,
-                      'fraction = (l - L[i]) / (L[i+1] - L[i]) for the same i', where=s, found=e['f'])
-                cx.ob('EXPR', f'{C}::at_length:point',
-                      match(f'(call OPoint::add (call *{C}::vtx (param self) $i) (call Matrix::mul (call *{C}::dir_of_edge (param self) $i) (sub (param length) (index (self lengths) $i))))', e['pt'], env) is not None,
-                      'point = vtx(i) + dir_of_edge(i) * (l - L[i]) for the same i', where=s, found=e['pt'])
-            for cl in cx.facts.closures_of(b.name):
-                cx.expect('EXPR', f'{C}::at_length:comparator', cx.retval(cl), '(unwrap (call f64::partial_cmp (param 2) (field cap:length (param 1))))',
-                          'the search orders stored lengths against the query (element.partial_cmp(query))', where=cl.file)
+        at_length_rules(cx, CP, C, S)
 
         # ---------------------------------------------------------------- at_vertex (last-vertex rule)
         b = cx.fn(f'{CP}::at_vertex')
